@@ -34,7 +34,7 @@ def _run_case(job):
         import importlib
         getattr(importlib.import_module(mod), fn)(ex, case)
     for k, v in case.opts.items():
-        if k in ('map_order_all', 'max_paths'):
+        if k in ('map_order_all', 'max_paths', 'big_len_set'):
             setattr(ex, k, v)
     t0 = time.time()
     recs = ex.explore(case.full(), args_fn=(lambda e: list(case.args)), run_init=case.opts.get('run_init', case.pkg == 'crypto'))
@@ -42,7 +42,7 @@ def _run_case(job):
     out = {'case': case.name, 'fn': case.fn, 'pkg': case.pkg, 'args': [a if isinstance(a, int) else str(a) for a in case.args],
            'paths': len(recs), 'status': dict(st), 'stats': ex.stats.asdict(),
            'violations': [], 'unsupported': [], 'inconclusive': [], 'reached': 0, 'asserts': 0,
-           'called': sorted(ex.called), 'sample_path': None}
+           'called': sorted(ex.called), 'sample_path': None, 'symbolic_only': bool(case.opts.get('symbolic_only'))}
     labels = collections.Counter()
     for r in recs:
         ev = r.get('events') or []
@@ -84,7 +84,7 @@ def match_known(known, prop, case, msg):
 
 def run_check(prop, cases, tier, seed, level='model_checking', functions=(), bounds=None, assumptions=(),
               trusted=(), explanation='', setup=None, timeout_ms=None, procs=None, extra_cov=None, tags=driver.HARNESS_TAG,
-              pre_results=None):
+              pre_results=None, replay_flags=''):
     """returns exit code. `cases` is a list of Case."""
     t0 = time.time()
     timeout_ms = timeout_ms or (60000 if tier == 'quick' else 600000)
@@ -93,6 +93,9 @@ def run_check(prop, cases, tier, seed, level='model_checking', functions=(), bou
     results = driver.run_cases(_run_case, jobs, procs=procs)
     if pre_results:
         results = list(pre_results) + results
+    if os.environ.get('VERIF_TIMES'):
+        for r in sorted(results, key=lambda r: -r.get('wall_s', 0))[:10]:
+            print('  time %.1fs %s paths=%s' % (r.get('wall_s', 0), r.get('case'), r.get('paths')))
     known = load_known()
     viol_lines, known_lines, inconc = [], [], []
     n_viol = 0
@@ -119,6 +122,9 @@ def run_check(prop, cases, tier, seed, level='model_checking', functions=(), bou
             if v['tape'] is None:
                 inconc.append('%s: violation without model: %s' % (res['case'], msg))
                 continue
+            if res.get('symbolic_only'):
+                inconc.append('%s: assertion fails under a hypothetical that cannot be replayed natively: %s' % (res['case'], msg))
+                continue
             k0 = match_known(known, prop, res['case'], msg)
             msgkey = (kind, msg)
             per_msg[msgkey] = per_msg.get(msgkey, 0) + 1
@@ -126,7 +132,7 @@ def run_check(prop, cases, tier, seed, level='model_checking', functions=(), bou
                 unreplayed += 1
                 continue
             d = driver.write_replay(prop, re.sub(r'[^A-Za-z0-9_.-]', '_', res['case'] + '_' + hashlib.md5(msg.encode()).hexdigest()[:6]),
-                                    res['pkg'], _replay_fn(res), v['tape'], note='%s %s: %s' % (prop, res['case'], msg))
+                                    res['pkg'], _replay_fn(res), v['tape'], note='%s %s: %s' % (prop, res['case'], msg), go_flags=replay_flags)
             rep, out = driver.run_replay(d)
             replays += 1
             open(os.path.join(d, 'replay.log'), 'w').write(out if isinstance(out, str) else str(out))
@@ -148,12 +154,12 @@ def run_check(prop, cases, tier, seed, level='model_checking', functions=(), bou
     # native run must reach the same label without any assertion failure or panic
     import random as _random
     rng = _random.Random(seed)
-    wit = [r for r in results if 'error' not in r and r.get('witness')]
+    wit = [r for r in results if 'error' not in r and r.get('witness') and not r.get('symbolic_only')]
     rng.shuffle(wit)
     wit_ok = 0
     for res in wit[:N_WITNESS]:
         d = driver.write_replay(prop, 'witness_' + re.sub(r'[^A-Za-z0-9_.-]', '_', res['case']), res['pkg'], _replay_fn(res), res['witness']['tape'],
-                                note='%s reachability witness of case %s' % (prop, res['case']))
+                                note='%s reachability witness of case %s' % (prop, res['case']), go_flags=replay_flags)
         rep, out = driver.run_replay(d)
         replays += 1
         open(os.path.join(d, 'replay.log'), 'w').write(out if isinstance(out, str) else str(out))
